@@ -224,12 +224,25 @@ type tcase struct {
 	tgt   *target
 	bit   int
 	index int
+	// fee / inLabel vary the body and the spent UTxO (donor transactions)
+	fee     uint64
+	inLabel string
+	// donorEra: era of the previously validated transaction a replayed
+	// witness ("other-tx-id") is taken from; nil = the case's own era
+	donorEra *lg.Era
 }
 
 func (t tcase) String() string {
 	s := fmt.Sprintf("era=%s scenario=%s manipulation=%s", t.era, t.sc.name, t.m.name)
 	if t.tgt != nil {
 		s += fmt.Sprintf(" target=%s:%s(%s)", t.tgt.role, t.tgt.o.name, ownerKindName[t.tgt.o.kind])
+	}
+	if t.m.name == "other-tx-id" {
+		de := t.era
+		if t.donorEra != nil {
+			de = *t.donorEra
+		}
+		s += " witness_replayed_from_accepted_" + de.String() + "_tx"
 	}
 	return s
 }
@@ -247,11 +260,31 @@ type built struct {
 
 const utxoCoin = 10_000_000
 
-func build(t tcase) (*built, error) {
+// donorCase is the transaction a replayed witness comes from: a complete,
+// properly signed payment (other fee, another UTxO of the same owner) that is
+// validated - and accepted - earlier in the same process.
+func donorCase(t tcase) tcase {
+	e := t.era
+	if t.donorEra != nil {
+		e = *t.donorEra
+	}
+	return tcase{era: e, sc: scenario{name: "donor", inputs: []owner{t.tgt.o}}, m: manips[0], fee: 500_000, inLabel: "donor"}
+}
+
+// build writes the transaction of a case. otherID is the id the
+// "other-tx-id" manipulations sign (the id of the donor transaction).
+func build(t tcase, otherID *lg.Hash32) (*built, error) {
 	e := t.era
 	w := lg.NewWorld(e)
 	st := w.State
 	spec := &lg.TxSpec{Era: e, Fee: 400_000}
+	if t.fee != 0 {
+		spec.Fee = t.fee
+	}
+	inLabel := "in"
+	if t.inLabel != "" {
+		inLabel = t.inLabel
+	}
 	if e == lg.Shelley {
 		spec.TTL = lg.U64(1 << 40) // mandatory in Shelley; far in the future
 	}
@@ -265,7 +298,7 @@ func build(t tcase) (*built, error) {
 	}
 	seenIn := map[string]bool{}
 	for _, o := range t.sc.inputs {
-		in, err := addUtxo("in", o)
+		in, err := addUtxo(inLabel, o)
 		if err != nil {
 			return nil, err
 		}
@@ -299,6 +332,9 @@ func build(t tcase) (*built, error) {
 	body := spec.BodyNode().Encode()
 	txid := lg.Blake256(body)
 	other := lg.Blake256(append([]byte("another transaction"), body...))
+	if otherID != nil {
+		other = *otherID
+	}
 
 	b := &built{spec: spec, state: st, txid: txid}
 	// complete witness set: one witness per distinct obligation + one unrelated
@@ -526,6 +562,11 @@ func cases(c *core.Ctx) []tcase {
 						continue
 					}
 					out = append(out, tcase{era: e, sc: s, m: m, tgt: &tg[i], bit: r.Intn(512)})
+					if m.name == "other-tx-id" && !random {
+						// the witness comes from a transaction of another era
+						de := lg.AllEras[(int(e)+1+r.Intn(len(lg.AllEras)-1))%len(lg.AllEras)]
+						out = append(out, tcase{era: e, sc: s, m: m, tgt: &tg[i], bit: r.Intn(512), donorEra: &de})
+					}
 				}
 			}
 		}
@@ -607,7 +648,39 @@ func run(c *core.Ctx) {
 		t := cs[i]
 		en := t.era.String()
 		desc := t.String()
-		b, err := build(t)
+		pp := lg.DefaultParams(t.era).For(t.era)
+		// evaluate runs the signature rules of an era on a decoded transaction
+		evaluate := func(e lg.Era, tx common.Transaction, st *lg.State) (map[string]error, bool) {
+			res := map[string]error{}
+			ok := true
+			epp := lg.DefaultParams(e).For(e)
+			for _, r := range rules[e] {
+				var rerr error
+				if pn, val, _ := core.Safely(func() { rerr = r.f(tx, 1000, st, epp) }); pn {
+					rerr = fmt.Errorf("panic: %v", val)
+				}
+				res[r.name] = rerr
+				if rerr != nil {
+					ok = false
+				}
+			}
+			return res, ok
+		}
+		// accepted siblings first: every reject case is validated right after
+		// the transaction it was derived from has been validated and accepted
+		// in this process
+		var donor *built
+		var otherID *lg.Hash32
+		if t.m.name == "other-tx-id" {
+			d, derr := build(donorCase(t), nil)
+			if derr != nil {
+				c.Count("donor_not_buildable_"+en, 1)
+				return
+			}
+			donor = d
+			otherID = &d.txid
+		}
+		b, err := build(t, otherID)
 		if err != nil {
 			c.Count("not_buildable_"+en, 1)
 			if c.Counter("not_buildable_"+en) <= 2 {
@@ -629,19 +702,44 @@ func run(c *core.Ctx) {
 		c.Distinct(en, core.HexFull(b.tx.TxId[:]), core.HexFull(witBytes))
 		c.Count("manipulation:"+t.m.name, 1)
 		v := reference(t, b)
-		pp := lg.DefaultParams(t.era).For(t.era)
-		res := map[string]error{}
-		allOK := true
-		for _, r := range rules[t.era] {
-			var rerr error
-			if pn, val, _ := core.Safely(func() { rerr = r.f(tx, 1000, b.state, pp) }); pn {
-				rerr = fmt.Errorf("panic: %v", val)
+		history := map[string]any{}
+		// verdict before the history exists
+		_, beforeOK := evaluate(t.era, tx, b.state)
+		if donor != nil {
+			dc := donorCase(t)
+			if dtx, e2 := donor.tx.Decode(); e2 == nil {
+				_, dOK := evaluate(dc.era, dtx, donor.state)
+				dFull := lg.Verify(dc.era, dtx, 1000, donor.state, lg.DefaultParams(dc.era).For(dc.era))
+				history["donor_tx_cbor"] = core.HexFull(donor.tx.Cbor)
+				history["donor_era"] = dc.era.String()
+				history["donor_accepted_by_signature_rules"] = dOK
+				history["donor_full_rule_list"] = fmt.Sprint(dFull)
+				if dOK && dFull == nil {
+					c.Count("donor_accepted_"+dc.era.String(), 1)
+				} else {
+					c.Count("donor_not_accepted_"+dc.era.String(), 1)
+				}
 			}
-			res[r.name] = rerr
-			if rerr != nil {
-				allOK = false
+		} else if t.m.name != "complete" {
+			ct := t
+			ct.m, ct.tgt = manips[0], nil
+			if cb, e2 := build(ct, nil); e2 == nil {
+				if ctx2, e3 := cb.tx.Decode(); e3 == nil {
+					_, sOK := evaluate(t.era, ctx2, cb.state)
+					history["complete_sibling_accepted"] = sOK
+					if sOK {
+						c.Count("accepted_sibling_validated_first_"+en, 1)
+					}
+				}
 			}
 		}
+		// the judged validation: a freshly decoded object, after the history
+		if tx2, e2 := b.tx.Decode(); e2 == nil {
+			tx = tx2
+		}
+		res, allOK := evaluate(t.era, tx, b.state)
+		// and once more on the same object: the verdict must not change
+		_, againOK := evaluate(t.era, tx, b.state)
 		full := lg.Verify(t.era, tx, 1000, b.state, pp)
 		if full == nil {
 			c.Count("full_list_accept_"+en, 1)
@@ -672,7 +770,7 @@ func run(c *core.Ctx) {
 			for n, e := range res {
 				rr[n] = fmt.Sprint(e)
 			}
-			return map[string]any{"case": desc, "era": en, "tx_cbor": core.HexFull(b.tx.Cbor), "tx_id": fmt.Sprintf("%x", b.txid[:]), "reference_failures": v.why,
+			return map[string]any{"case": desc, "era": en, "validated_before_in_this_process": history, "tx_cbor": core.HexFull(b.tx.Cbor), "tx_id": fmt.Sprintf("%x", b.txid[:]), "reference_failures": v.why,
 				"rule_results": rr, "full_rule_list_result": fmt.Sprint(full), "utxo_addresses": utxoAddrs(t)}
 		}
 		weight := len(b.tx.Cbor)
@@ -707,6 +805,10 @@ func run(c *core.Ctx) {
 				cond = "required-signer-unwitnessed"
 			}
 			report(cond, "the signature rules of the era's list ("+strings.Join(ruleNames(rules[t.era]), ", ")+")")
+		}
+		if beforeOK != allOK || againOK != allOK {
+			co.add(finding{key: "C28:" + en + ":verdict-depends-on-validation-history", weight: weight, witness: wit(),
+				what: fmt.Sprintf("%s: the signature rules give different verdicts for the same transaction: before its sibling / donor transaction was validated %v, afterwards %v, repeated on the same object %v (%s)", en, beforeOK, allOK, againOK, desc)})
 		}
 		if full == nil && !v.all() {
 			co.add(finding{key: "C28:" + en + ":full-list-accepts-unwitnessed", weight: weight, witness: wit(),
@@ -761,4 +863,3 @@ func forceInconclusive(c *core.Ctx, what string) {
 		c.Inconclusive(what)
 	}
 }
-
